@@ -146,7 +146,19 @@ pzgstrf_thread_init(SuperMatrix *A, SuperMatrix *L, SuperMatrix *U,
 
     /* Allocate global storage common to all the factor routines */
     *info = pzgstrf_MemInit(n, Astore->nnz, options, L, U, &Glu);
-    if ( *info ) return NULL;
+    if ( *info ) {
+	/* Workspace query or lack of memory: no factorization follows, so
+	   release what has been set up for it. */
+	extern ExpHeader *zexpanders;
+	ParallelFinalize(pxgstrf_shared);
+	SUPERLU_FREE(inv_perm_r);
+	SUPERLU_FREE(inv_perm_c);
+	SUPERLU_FREE(xprune);
+	SUPERLU_FREE(ispruned);
+	SUPERLU_FREE(zexpanders);
+	zexpanders = 0;
+	return NULL;
+    }
 
     /* Prepare arguments to all threads. */
     pzgstrf_threadarg = (pzgstrf_threadarg_t *) 
